@@ -64,6 +64,7 @@ func (s *Sync) Run(source, target Repository, defaultStartDate time.Time) error 
 	jobs := helper.SliceToChan(s.Assets)
 
 	hasErrors := false
+	hasErrorsMutex := &sync.Mutex{}
 	wg := &sync.WaitGroup{}
 
 	for i := 0; i < s.Workers; i++ {
@@ -85,14 +86,18 @@ func (s *Sync) Run(source, target Repository, defaultStartDate time.Time) error 
 				snapshots, err := source.GetSince(name, lastDate)
 				if err != nil {
 					s.Logger.Error("GetSince failed.", "asset", name, "error", err)
+					hasErrorsMutex.Lock()
 					hasErrors = true
+					hasErrorsMutex.Unlock()
 					continue
 				}
 
 				err = target.Append(name, snapshots)
 				if err != nil {
 					s.Logger.Error("Append failed.", "asset", name, "error", err)
+					hasErrorsMutex.Lock()
 					hasErrors = true
+					hasErrorsMutex.Unlock()
 					continue
 				}
 
